@@ -105,17 +105,19 @@ def rank (k : Nat) (s : Sys) : Nat :=
   s.out * k + 4 * s.stale + 4 * s.staleJoined + 3 * s.needJoin + 2 * s.parked + s.joinedL + s.joinedF
 
 /-- the convergence clause on an observation of the implementation: every live member is in the
-    group's latest generation, the assignments cover every partition exactly once, and during the
-    watch window nobody sent a JoinGroup, the generation stayed and everybody heartbeated -/
+    group's latest generation, the assignments cover every partition (as the cluster has them at the
+    end) exactly once, and during the watch window nobody sent a JoinGroup, the generation stayed
+    and everybody kept heartbeating: at least `minHb` successful heartbeats each (the window
+    divided by the heartbeat interval, halved) -/
 def observedConverged (latest : Nat) (memberGens : List Nat) (missing dup joinsInWatch genAfter : Nat)
-    (heartbeats : List Nat) : Bool :=
+    (heartbeats : List Nat) (minHb : Nat) : Bool :=
   memberGens.all (· == latest) && missing == 0 && dup == 0 && joinsInWatch == 0 &&
-  genAfter == latest && heartbeats.all (0 < ·)
+  genAfter == latest && heartbeats.all (fun h => 0 < h && minHb ≤ h)
 
 def handle : List String → Option String
-  | ["conv", latest, gens, missing, dup, joins, genAfter, hbs] => do
+  | ["conv", latest, gens, missing, dup, joins, genAfter, hbs, minHb] => do
     some (toString (observedConverged (← latest.toNat?) (← Util.parseNatList gens) (← missing.toNat?)
-      (← dup.toNat?) (← joins.toNat?) (← genAfter.toNat?) (← Util.parseNatList hbs)))
+      (← dup.toNat?) (← joins.toNat?) (← genAfter.toNat?) (← Util.parseNatList hbs) (← minHb.toNat?)))
   | _ => none
 
 end AkVerif.GroupSys
